@@ -63,6 +63,7 @@ PyLt(x, y) == IF TextLike(x) \/ TextLike(y) THEN Un
 Cmp(op, x, y) ==
   IF Bad(x) \/ Bad(y) THEN Worst(x, y)
   ELSE IF x.t = "missing" \/ y.t = "missing" THEN Bv(FALSE)                  \* C08: every comparison with a missing field is false
+  ELSE IF x.t \in {"net", "cmd"} \/ y.t \in {"net", "cmd"} THEN Un             \* network arithmetic / command comparison are not modelled
   ELSE CASE op = "Eq"    -> Bv(PyEq(x, y))
          [] op = "NotEq" -> Bv(~PyEq(x, y))
          [] op = "Lt"    -> PyLt(x, y)
@@ -82,10 +83,10 @@ Truth(x) == CASE Bad(x) -> x
               [] x.t = "int" -> Bv(x.v # 0)
               [] x.t = "none" -> Bv(FALSE)
               [] x.t \in {"str", "list", "tuple"} -> Bv(x.v # <<>>)
-              [] x.t \in {"ip", "path"} -> Un
+              [] x.t \in {"ip", "path", "net", "cmd"} -> Un
 Bin(op, x, y) ==
   IF Bad(x) \/ Bad(y) THEN Worst(x, y)
-  ELSE IF x.t = "missing" \/ y.t = "missing" \/ TextLike(x) \/ TextLike(y) THEN Un
+  ELSE IF x.t = "missing" \/ y.t = "missing" \/ TextLike(x) \/ TextLike(y) \/ x.t \in {"net", "cmd"} \/ y.t \in {"net", "cmd"} THEN Un
   ELSE CASE op = "Add" -> IF IsNum(x) /\ IsNum(y) THEN I(Num(x) + Num(y))
                           ELSE IF x.t = "str" /\ y.t = "str" THEN S(x.v \o y.v)
                           ELSE IF x.t = y.t /\ IsSeq(x) THEN [t |-> x.t, v |-> x.v \o y.v]
@@ -99,6 +100,7 @@ Bin(op, x, y) ==
          [] op = "BitOr" -> IF x.t = "bool" /\ y.t = "bool" THEN Bv(x.v \/ y.v) ELSE IF IsNum(x) /\ IsNum(y) THEN I(BOr(Num(x), Num(y))) ELSE Err
 Call1(f, x) ==
   IF Bad(x) THEN x
+  ELSE IF x.t \in {"net", "cmd"} THEN Un
   ELSE IF TextLike(x) THEN (IF f = "str" THEN S(x.v) ELSE x)
   ELSE CASE f = "lower" -> IF x.t = "str" THEN S(Lower(x.v)) ELSE x
          [] f = "upper" -> IF x.t = "str" THEN S(Upper(x.v)) ELSE x
@@ -144,6 +146,7 @@ Ev(e, env) ==
   CASE e.k = "const" -> e.v
     [] e.k = "field" -> IF e.f \in DOMAIN env THEN env[e.f] ELSE Mi
     [] e.k = "var"   -> env["$x"]
+    [] e.k = "ctor"  -> [t |-> "net", v |-> e.arg]        \* a field-type constructor call: net.ipv4.Subnet('10.0.0.0/8'), net.ipnetwork(...)
     [] e.k = "tuple" -> LET xs == [i \in DOMAIN e.es |-> Ev(e.es[i], env)] IN
                         IF \E i \in DOMAIN xs : xs[i].t = "err" THEN Err ELSE IF \E i \in DOMAIN xs : xs[i].t = "unspec" THEN Un ELSE Tu(xs)
     [] e.k = "neg"   -> LET x == Ev(e.a, env) IN IF Bad(x) THEN x ELSE IF x.t = "missing" THEN Un ELSE IF IsNum(x) THEN I(0 - Num(x)) ELSE Err
